@@ -252,7 +252,7 @@ class Stmts:
         if not stmts:
             return k(env)
         s, rest = stmts[0], stmts[1:]
-        live_rest = read_names(rest) | live | ({self.STATE} if self.writes else set())
+        live_rest = self.live_after(rest, live)
         go = lambda env2: self.block(rest, env2, k, live)
         B = []
         if isinstance(s, ast.Pass):
@@ -296,6 +296,10 @@ class Stmts:
         if isinstance(s, ast.With):
             return self.with_(s, env, go)
         return self.other_stmt(s, rest, env, k, live)
+
+    def live_after(self, rest, live):
+        """names the statements `rest` followed by a continuation reading `live` may read (default: every name read anywhere in rest)"""
+        return read_names(rest) | live | ({self.STATE} if self.writes else set())
 
     def assign_chain(self, s, env, go):
         """a = b = <value without partial operations>"""
